@@ -48,6 +48,16 @@ Step(e) ==
            [] e.ev = "fact" ->
                 LET B == {i \in 1 .. Len(e.rows) : e.rows[i] # FactTab[e.from + i - 1]}
                 IN (B # {}) => Mismatch(l, [ev |-> "fact", N |-> e.N], [wrong_n |-> {e.from + i - 1 : i \in B}])
+           [] e.ev = "factit" ->
+                \* the same enumeration through Iterator's other entry points: functions of the list
+                LET Opt(sq, i) == IF i >= 1 /\ i <= Len(sq) THEN <<sq[i]>> ELSE <<>>
+                    Odd(sq) == [k \in 1 .. ((Len(sq) + 1) \div 2) |-> sq[2 * k - 1]]
+                    RowOK(r) == LET ls == r[2] IN
+                        /\ ls = FactTab[r[1]]
+                        /\ r[3] = Opt(ls, Len(ls)) /\ r[4] = Len(ls) /\ r[5] = Opt(ls, 2) /\ r[6] = Opt(ls, 3)
+                        /\ r[7] = (IF ls = <<>> THEN <<>> ELSE Tail(ls)) /\ r[8] = Odd(ls)
+                    B == {i \in 1 .. Len(e.rows) : ~RowOK(e.rows[i])}
+                IN (B # {}) => Mismatch(l, [ev |-> "factit", N |-> e.N], [wrong_rows |-> {e.rows[i] : i \in B}])
            [] e.ev = "bigsample" ->
                 LET B == {i \in 1 .. Len(e.rows) : ~BigRowOK(e.rows[i])}
                 IN (B # {}) => Mismatch(l, [ev |-> "bigsample", N |-> e.N], [wrong_rows |-> {e.rows[i] : i \in B}])
